@@ -108,7 +108,7 @@ reg["C14"] = {"level": "model_checking", "explanation": EXPL + "; the search sta
     "outside": ["LIKE collation / '_' and '%' inside client patterns", "JWT signature verification of the cursor token (api layer)"],
     "harnesses": store(["VH_R_SearchPromises", "VH_R_SearchSchedules"], ["C14:"]) + [dict(h, reach=["two-pages"]) for h in store(["VH_R_TwoPages"], ["C14:"])]
                  + co(["VH_P_Search"], ["C14:", "C01:", "C04:"], opts=SEARCHOPT, optsT=SEARCHOPT_T, reach=REACH_P)
-                 + co(["VH_S_Search"], ["C14:"], opts={"slots.callbacks": 0, "slots.locks": 0, "slots.schedules": 2, "slots.promises": 0, "slots.tasks": 0, "faults": 0}, reach={"VH_S_Search": ["page", "cursor"]})}
+                 + co(["VH_S_Search"], ["C14:"], opts={"slots.callbacks": 0, "slots.locks": 0, "slots.schedules": 2, "slots.promises": 0, "slots.tasks": 0, "faults": 0}, optsT={"slots.callbacks": 0, "slots.locks": 0, "slots.schedules": 3, "slots.promises": 0, "slots.tasks": 0, "faults": 1}, reach={"VH_S_Search": ["page", "cursor"]})}
 
 GRPC = "internal/app/subsystems/api/grpc"
 E2EOPT = {"slots.callbacks": 1, "slots.locks": 1, "slots.schedules": 1, "slots.promises": 1, "slots.tasks": 1, "faults": 1}
@@ -326,3 +326,26 @@ reg["C19"]["harnesses"].append(dict(PH, labels=["C19:", "C18:"]))
 reg["C18"]["harnesses"].append(dict(PH, labels=["C18:", "C19:listener", "C20:message"]))
 reg["C13"]["harnesses"].append(dict(PH, labels=["C13:"]))
 reg["C18"]["explanation"] += "; the listener side (PollHandler.ServeHTTP over net/http contract stubs) registers a connection under exactly the group and id of its decoded request path, refuses when the registration queue is full, relays a message as one server-sent event verbatim and reports its disconnect exactly once"
+
+# ---- fourth round (variants E)
+reg["C01"]["harnesses"] += [dict(h, reach=["committed", "failed"]) for h in store(["VH_C06_ExecuteAtomic", "VH_C06_ProcessError"], ["C06:"])]
+reg["C01"]["explanation"] += "; a completion is acknowledged only if its transaction committed (a failing COMMIT, including the context-expired sentinel, is an error for every submission of the batch)"
+reg["C07"]["harnesses"] += co(["VH_D_CreateWithTask"], ["C08:task-claimed-by-creator", "C08:task-response", "C07:"], opts=ROUTEOPT, reach=REACH_P)
+reg["C07"]["explanation"] += "; a task born claimed by create-with-task stores the lease (ttl, expiry, process) it answers with"
+reg["C08"]["harnesses"] += store(["VH_C16_UpdateTask"], [])
+reg["C08"]["explanation"] += "; the guarded task update matches a task in any of the states the caller lists (a claim succeeds on an unclaimed task whether or not its hand-off was recorded)"
+reg["C14"]["harnesses"].append({"name": "VH_H_StateJSON", "pkg": HTTP, "labels": ["C15:"], "reach": ["accepted", "refused"]})
+reg["C14"]["explanation"] += "; the state filter travels inside a cursor as JSON state names, which round-trip exactly"
+
+for h in reg["C11"]["harnesses"]:
+    if h["name"] == "VH_S_Fire":
+        h["labels"] = sorted(set(h["labels"] + ["C10:advances", "C10:schedule-advanced", "O2:I6"]))
+reg["C11"]["explanation"] += "; a fired schedule advances strictly (its new next run time is the cron's next occurrence after the fired one, computed by the real util.Next over a cron/time contract)"
+
+reg["C12"]["harnesses"] += [{"name": "VH_G_Stop", "pkg": GRPC, "labels": ["C12:"], "reach": ["done"]}, {"name": "VH_H_Stop", "pkg": HTTP, "labels": ["C12:"], "reach": ["done"]},
+                            {"name": "VH_PL_PollStop", "pkg": "internal/app/plugins/poll", "labels": ["C18:", "C12:"], "reach": ["done"]}]
+reg["C18"]["harnesses"].append({"name": "VH_PL_PollStop", "pkg": "internal/app/plugins/poll", "labels": ["C18:"], "reach": ["done"]})
+reg["C12"]["explanation"] += "; both front ends stop with the primitive that waits for in-flight handlers (grpc GracefulStop, net/http Shutdown), so a completion the kernel has delivered is still written to its client"
+
+# two due schedules in one sweep (helpers shared between them, e.g. caches, are exercised)
+reg["C10"]["harnesses"] += co(["VH_S_Fire"], ["C10:"], opts={"slots.callbacks": 0, "slots.locks": 0, "slots.schedules": 2, "slots.promises": 2, "slots.tasks": 2, "batch": 2, "faults": 0}, optsT=SCHEDOPT_T, reach=REACH_P, pgquick=False)
